@@ -292,13 +292,42 @@ def rule_scrub(ctx) -> RuleResult:
     return res
 
 
+def _file_removal_parts(F, c):
+    """(uid expression, container expression) of a call that deletes a node through the writer:
+    `<ws>._io_call(H5Writer.remove_entity, <uid>, <container>, ...)`, or a call to a method of the same class that only forwards two of its
+    own parameters to such a call (a helper the normaliser could not expand, e.g. one that passes **kwargs on); None otherwise."""
+    if not isinstance(c.func, ast.Attribute):
+        return None
+    if c.func.attr == "_io_call" and len(c.args) >= 3 and F.xt(c.args[0]) == "H5Writer.remove_entity":
+        return c.args[1], c.args[2]
+    fn = F.fn
+    sn = fn.self_name
+    if fn.cls is None or sn is None or F.xt(c.func.value) not in (sn, f"{sn}.workspace"):
+        return None
+    m = fn.cls.lookup(c.func.attr)
+    if not m or m[1] != "method":
+        return None
+    h = m[2]
+    ps = h.params[1:] if h.kind in ("method", "classmethod") else h.params
+    body = [s_ for s_ in h.node.body if not (isinstance(s_, ast.Expr) and isinstance(s_.value, ast.Constant))]
+    if len(body) != 1 or not isinstance(body[0], (ast.Expr, ast.Return)) or not isinstance(body[0].value, ast.Call):
+        return None
+    inner = body[0].value
+    if not (isinstance(inner.func, ast.Attribute) and inner.func.attr == "_io_call" and len(inner.args) >= 3 and unparse(inner.args[0]).endswith("H5Writer.remove_entity")
+            and isinstance(inner.args[1], ast.Name) and isinstance(inner.args[2], ast.Name) and inner.args[1].id in ps and inner.args[2].id in ps):
+        return None
+    bound = dict(zip(ps, c.args))
+    bound.update({k.arg: k.value for k in c.keywords if k.arg})
+    u, k = bound.get(inner.args[1].id), bound.get(inner.args[2].id)
+    return (u, k) if u is not None and k is not None else None
+
+
 def _is_file_removal(F, c, uid_of=None) -> bool:
-    """`<ws>._io_call(H5Writer.remove_entity, <x>.uid, <container>, ...)`; uid_of: the name <x> must be (None: any)."""
-    if not (isinstance(c.func, ast.Attribute) and c.func.attr == "_io_call" and len(c.args) >= 3):
+    """a writer removal (see _file_removal_parts) of `<x>.uid`; uid_of: the name <x> must be (None: any)."""
+    parts = _file_removal_parts(F, c)
+    if parts is None:
         return False
-    if F.xt(c.args[0]) != "H5Writer.remove_entity":
-        return False
-    u = F.x(c.args[1])
+    u = F.x(parts[0])
     return isinstance(u, ast.Attribute) and u.attr == "uid" and (uid_of is None or unparse(u.value) == uid_of)
 
 
@@ -350,7 +379,7 @@ def rule_file(ctx) -> RuleResult:
     for f in file_nodes:
         for c in F.calls(f):
             if _is_file_removal(F, c, ent):
-                src = F.x(c.args[2])
+                src = F.x(_file_removal_parts(F, c)[1])
                 ok = isinstance(src, ast.Call) and name_of(src.func) == "str_from_type" and len(src.args) == 1 and not src.keywords and unparse(src.args[0]) == ent
                 shown = unparse(src)
                 res.inst(f"remove_entity: container argument comes from {shown}", ok=ok)
@@ -865,8 +894,9 @@ def rule_sweep(ctx) -> RuleResult:
         if not passed:
             raise AnalysisError(f"C05.SWEEP: no caller of {f0.qualname} found for its container parameter {q}")
         # the call may sit in the view (helpers expanded) or in the function as written: locate it in whichever graph has it
-        for node in (fv.node, f0.node):
-            g = graphs.setdefault(id(node), CFG(node))
+        for cand in (fv, f0):
+            FX = graphs.setdefault(id(cand.node), Fx(cand))  # tests evaluated with local aliases / flags undone (`has_node = rtype != ".."`)
+            g = FX.g
             site = [n for n in g.nodes if n.ast is not None and not isinstance(n.ast, list) and n.kind != "with" and any(x is call for x in ast.walk(n.ast))]
             if site:
                 break
@@ -874,7 +904,7 @@ def rule_sweep(ctx) -> RuleResult:
             raise AnalysisError(f"C05.SWEEP: call at line {call.lineno} of {f0.qualname} not found in its flow graph")
         yes, no = {}, {}
         for v, at in passed.items():
-            seen = reach(g, [g.entry], q, {"const:" + q: v})
+            seen = FX.reach([g.entry], q, {"const:" + q: v})
             (yes if any(n in seen for n in site) else no)[v] = at
         for v, at in upstream_shut.items():
             if v not in yes:
@@ -1513,6 +1543,21 @@ def rule_member(ctx) -> RuleResult:
                 # element holds when the body starts on that element
                 it = F.x(heads[-1].stmt.iter)
                 gen = None
+                if isinstance(it, ast.GeneratorExp) and len(it.generators) == 1 and isinstance(it.generators[0].target, ast.Name) \
+                        and isinstance(it.elt, ast.Name) and it.elt.id == it.generators[0].target.id:
+                    # a generator EXPRESSION is lazy too: its conditions are evaluated when each element is reached (a list comprehension is not)
+                    tname = it.generators[0].target.id
+
+                    def gone(e, tname=tname):
+                        if isinstance(e, ast.Compare) and len(e.ops) == 1 and isinstance(e.ops[0], (ast.In, ast.NotIn)) \
+                                and unparse(e.left) == tname and F.xt(e.comparators[0]) == own:
+                            return isinstance(e.ops[0], ast.NotIn)
+                        return None
+
+                    from ._c05_sem import _Bools
+
+                    if any(_assume(_Bools().visit(F.x(cnd)), gone) is False for cnd in it.generators[0].ifs):
+                        seen = set()
                 if isinstance(it, ast.Call) and isinstance(it.func, ast.Attribute) and unparse(it.func.value) == sn and fn.cls is not None:
                     m_ = fn.cls.lookup(it.func.attr)
                     gen = m_[2] if m_ and m_[1] == "method" else None
